@@ -133,3 +133,93 @@ def sloAll (truthy : α → Bool) (preferred : List α) (expected : Option α) :
       | some cs => some (c :: cs)
 
 end Routing
+
+/-! ## Round 5: request kinds and entity roles of `response_args`, `pick_binding` without a descriptor type,
+    `_sso_location` without an entity id, histories of metadata reloads on one long-lived entity. -/
+namespace Routing
+variable {α : Type} [DecidableEq α]
+
+/-- The request classes `Entity.response_args` distinguishes. `soapOnly` = AssertionIDRequest, ArtifactResolve,
+    NameIDMappingRequest (no return service); `unsupported` = any other message class (`SAMLError`). -/
+inductive ReqKind where
+  | authn | logout | attrQuery | manageNameId | soapOnly | unsupported
+deriving Repr, DecidableEq
+
+/-- The services looked up in the peer's metadata. -/
+inductive Svc where
+  | acs | slo | mni | attrCs | sso
+deriving Repr, DecidableEq
+
+/-- `rsrv` of `response_args`: the service of the requester the answer is returned to. -/
+def kindService : ReqKind → Option Svc
+  | .authn => some .acs
+  | .logout => some .slo
+  | .attrQuery => some .attrCs
+  | .manageNameId => some .mni
+  | .soapOnly => none
+  | .unsupported => none
+
+/-- Descriptor type under which the requester is looked up (`true` = `idpsso`, `false` = `spsso`):
+    AuthnRequest and AttributeQuery fix `spsso`; otherwise the peer of an SP is an IdP and vice versa. -/
+def kindDescrIdp (selfIsSp : Bool) : ReqKind → Bool
+  | .authn => false
+  | .attrQuery => false
+  | _ => selfIsSp
+
+/-- `Entity.response_args` for every request class on either kind of entity. `lookup idpDescr svc` is the endpoint list
+    the metadata store holds for the requester under that descriptor type and service (`none`: no such entity /
+    descriptor).  Result `none` = an answer without destination (nothing is addressed). -/
+def responseArgsK (truthy : α → Bool) (soap empty : α) (selfIsSp : Bool) (kind : ReqKind)
+    (lookup : Bool → Svc → Option (List (Endpoint α))) (arg : List α) (reqBinding : Option α)
+    (preferred : Svc → List α) (url index : Option α) : Option (Pick α) :=
+  match kind with
+  | .unsupported => some .refused
+  | _ =>
+    if arg = [soap] then some (.ok soap empty)
+    else
+      match kindService kind with
+      | none => none
+      | some s =>
+        some (pickBinding truthy (lookup (kindDescrIdp selfIsSp kind) s)
+          (effBindings truthy arg reqBinding (preferred s)) url index)
+
+/-- `Entity.pick_binding(service, bindings, entity_id=…)` called without descriptor type and without request
+    (e.g. `create_ecp_authn_request`): the peer's descriptor follows from the entity's own type. -/
+def pickDirect (truthy : α → Bool) (selfIsSp : Bool) (s : Svc)
+    (lookup : Bool → Svc → Option (List (Endpoint α))) (arg : List α) (preferred : Svc → List α) : Pick α :=
+  pickBinding truthy (lookup selfIsSp s) (effBindings truthy arg none (preferred s)) none none
+
+/-- `Base._sso_location(entityid, binding)` in full: a (truthy) entity id names the target; without one the target is
+    the identity provider of the metadata if there is exactly one, otherwise `IdpUnspecified`. `idps` = the
+    single-sign-on endpoint lists of the entities that have an IdP descriptor. -/
+def ssoLocationAny (truthy : α → Bool) (entity : Option α) (named : Option (List (Endpoint α)))
+    (idps : List (List (Endpoint α))) (b : α) : Option α :=
+  match entity.filter truthy with
+  | some _ => ssoLocation named b
+  | none =>
+    match idps with
+    | [l] => ssoLocation (some l) b
+    | _ => none
+
+/-- One event in the life of a long-lived entity: the metadata source changes (`none` = becomes unreadable),
+    the operator calls `reload_metadata`, a look-up is made. -/
+inductive HStep (μ ρ : Type) where
+  | write (m : Option μ)
+  | reload
+  | ask (q : ρ)
+
+inductive HOut (ο : Type) where
+  | reloaded (ok : Bool)
+  | ans (o : ο)
+deriving Repr, DecidableEq
+
+/-- `MetadataStore.reload` + look-ups: a successful reload installs what the source holds NOW, a failed one keeps the
+    previous set; every look-up is answered from the set installed last (nothing older survives). -/
+def runHist {μ ρ ο : Type} (answer : μ → ρ → ο) : Option μ → μ → List (HStep μ ρ) → List (HOut ο)
+  | _, _, [] => []
+  | _, l, .write m :: r => runHist answer m l r
+  | some m, _, .reload :: r => .reloaded true :: runHist answer (some m) m r
+  | none, l, .reload :: r => .reloaded false :: runHist answer none l r
+  | d, l, .ask q :: r => .ans (answer l q) :: runHist answer d l r
+
+end Routing
